@@ -39,9 +39,10 @@ def shape_findings(board, length, width, max_reward, force_down):
 
 def work_shape(shard):
     seeds, sizes = shard
-    out = {"calls": 0, "violations": [], "n_violations": 0, "samples": [], "loose": {}, "tiles": {}}
+    out = {"calls": 0, "violations": [], "n_violations": 0, "samples": [], "loose": {}, "tiles": {}, "order_differential_calls": 0}
     prev = None
     last_fd = None
+    made = []
     for seed in seeds:
         for (w, l) in sizes:
             for mr in ((1, 2, 6) if (seed % 50 or (w, l) != (2, 2)) else (1, 2, 6, 1023, 5000)):      # very large maximum rewards on a few calls
@@ -53,6 +54,8 @@ def work_shape(shard):
                         except Exception as e:               # noqa: BLE001
                             b, why = None, "exception %r" % (e,)
                         out["calls"] += 1
+                        if (w, l) in ((1, 1), (2, 2), (3, 2), (1, 4)) and seed % 4 == 0:
+                            made.append(([seed, l, w, p, mr, fd], _digest(b) if b is not None else "exception"))
                         if b is not None and why is None:
                             key = repr(p)
                             out["loose"][key] = out["loose"].get(key, 0) + sum(sum(r) for r in b[2])
@@ -67,6 +70,16 @@ def work_shape(shard):
                         prev = [seed, l, w, p, mr, fd]
                         if fd:
                             last_fd = prev
+    if made:
+        diff = order_differential(made)
+        if diff is None:
+            raise par.HarnessError("C15: the order-differential process failed")
+        out["order_differential_calls"] += len(made)
+        for c, here, there in diff[:2]:
+            out["n_violations"] += 1
+            out["violations"].append(mk("C15/depends-on-earlier-calls", {"leg": "order", "call": c, "calls": [x for x, _ in made]}, here, there,
+                                        "gen_rnd_board%r gives a different board when the %d calls of this shard are made in the opposite order in a "
+                                        "new process: a board depends on the calls made before it" % (tuple(c), len(made))))
     out["samples"].append({"leg": "shape", "seed": seeds[0], "sizes": len(sizes)})
     return out
 
@@ -109,16 +122,53 @@ def explore_reproducibility(depth):
     return findings, len(seen), transitions, refs
 
 
-def other_process_boards():
+def _boards_in_new_process(param_sets):
     code = ("import sys; sys.path.insert(0, %r); sys.dont_write_bytecode = True\n"
             "import roberta_generator as G\n"
-            "print(repr([G.gen_rnd_board(*p) for p in %r]))\n" % (REPO, PARAM_SETS))
+            "print(repr([G.gen_rnd_board(*p) for p in %r]))\n" % (REPO, list(param_sets)))
     env = dict(os.environ, PYTHONHASHSEED="7")
-    r = subprocess.run([sys.executable, "-c", code], capture_output=True, text=True, env=env, timeout=60)
+    r = subprocess.run([sys.executable, "-c", code], capture_output=True, text=True, env=env, timeout=120)
     if r.returncode != 0:
         return None, r.stderr[-300:]
     import ast
     return ast.literal_eval(r.stdout.strip()), None
+
+
+def other_process_boards():
+    """every parameter set in a process of its own (another hash seed): the board a set gives with no history at all"""
+    out = []
+    for ps in PARAM_SETS:
+        b, err = _boards_in_new_process([ps])
+        if b is None:
+            return None, err
+        out.append(b[0])
+    return out, None
+
+
+def _digest(b):
+    import hashlib
+    return hashlib.sha1(repr(b).encode()).hexdigest()[:16]
+
+
+def order_differential(calls):
+    """the same calls made in the opposite order in a new process must give the same boards (no call may depend on the calls before it);
+    returns a list of (call, digest here, digest there) that differ, or None if the second process failed"""
+    code = ("import sys, hashlib; sys.path.insert(0, %r); sys.dont_write_bytecode = True\n"
+            "import roberta_generator as G\n"
+            "out = []\n"
+            "for p in %r:\n"
+            "    try:\n"
+            "        out.append(hashlib.sha1(repr(G.gen_rnd_board(*p)).encode()).hexdigest()[:16])\n"
+            "    except Exception as e:\n"
+            "        out.append('exception ' + type(e).__name__)\n"
+            "print(repr(out))\n" % (REPO, [c for c, _ in reversed(calls)]))
+    env = dict(os.environ, PYTHONHASHSEED="11")
+    r = subprocess.run([sys.executable, "-c", code], capture_output=True, text=True, env=env, timeout=600)
+    if r.returncode != 0:
+        return None
+    import ast
+    there = list(reversed(ast.literal_eval(r.stdout.strip())))
+    return [(c, d, t) for (c, d), t in zip(calls, there) if d != t]
 
 
 # --------------------------------------------------------------------------------------------- frequency leg
@@ -237,6 +287,48 @@ def work_refusal(shard):
     return out
 
 
+ENTRY_GRID = [dict(seed=sd, width=w, length=l, rb=0.1, lb=0.05, tb=0.25, lt=lt, max_reward=mr, force_down=fd)
+              for sd in (0, 3, 7) for (w, l) in ((1, 1), (2, 2), (3, 2), (2, 3)) for mr in (1, 2, 6, 9) for lt in (0.3, 0.99) for fd in (False, True)]
+
+
+def work_entry(shard):
+    """through main(): the three games written for a parameter set must be the games of the board that gen_rnd_board returns for the same
+    seed, size, loose-tile probability, maximum reward and force-down flag (bisimilar to the rule model of that board)"""
+    from .. import roborta as RB
+    from ..repo import conditionalrewards as CR
+    out = {"entry_runs": 0, "violations": [], "n_violations": 0, "calls": 0}
+    for params in shard:
+        why = None
+        with gen.Scratch() as sc:
+            e = gen.run_main(**params)
+            files = sc.files()
+            if e is not None or len(files) != 1:
+                why = "main() raised %r and left %r" % (e, files)
+            else:
+                d = CR.read_dict_from_file(os.path.join("inputs", files[0]))
+        out["entry_runs"] += 1
+        if why is None:
+            moves, rew, loose = G.gen_rnd_board(params["seed"], params["length"], params["width"], params["lt"], params["max_reward"], params["force_down"])
+            for variant, key in (("A", "game_a"), ("B", "game_b"), ("C", "game_c")):
+                gg = RB.game_graph(d.get(key)) if isinstance(d, dict) and key in d else None
+                if gg is None:
+                    why = "%s missing or malformed in the written file" % key
+                    break
+                i2, gm = RB.model(variant, moves, rew, loose, params["rb"], params["lb"], params["tb"])
+                ok = RB.bisimilar(gg[0], gg[1], i2, gm)[0]
+                if not ok:
+                    why = ("%s of the written file is not the game of the board gen_rnd_board(seed=%d, length=%d, width=%d, p=%r, max_reward=%d, "
+                           "force_down=%s) = %r" % (key, params["seed"], params["length"], params["width"], params["lt"], params["max_reward"],
+                                                    params["force_down"], (moves, rew, loose)))
+                    break
+        if why:
+            out["n_violations"] += 1
+            if len(out["violations"]) < 2:
+                out["violations"].append(mk("C15/command-line-board-differs", {"leg": "entry", "params": params}, why[:300], "the games of the board for these parameters",
+                                            "python roberta_generator.py with %r: %s" % (params, why)))
+    return out
+
+
 def main_refusals():
     """through main(): every single and double deviation from a valid parameter set must raise ValueError and write nothing"""
     base = dict(seed=0, width=2, length=2, rb=0.1, lb=0.1, tb=0.1, lt=0.3, max_reward=6)
@@ -273,7 +365,7 @@ def main_refusals():
 
 RULE = ("range/shape: every (seed, size, max reward, loose probability, force-down) of the listed grid through gen_rnd_board; reproducibility: "
         "all call sequences up to the depth bound over 4 parameter sets plus foreign random()/seed() calls, states = pseudo-random generator "
-        "states, each result compared with the first result for those arguments, plus a second process with another hash seed; frequency: the "
+        "states, each result compared with the first result for those arguments and with the board the same arguments give in a process of their own (no history, another hash seed); a quarter of the range leg's calls is repeated in the opposite order in a new process and must give the same boards; entry point: for a grid of 384 parameter sets the three games written by main() must be bisimilar to the rule model of the board gen_rnd_board returns for the same arguments; frequency: the "
         "pseudo-random source seen by the generator is replaced by a scripted one and all pairs of an equidistributed M x M grid of answers "
         "(plus boundary answers 0.0, 2^-53, p-ulp, p, 1-2^-53) are enumerated for each tile of a 1x1 and a 2x2 board; refusal: the full product "
         "of boundary classes of the eight range checks, and every single/double out-of-range deviation through main(); non-trivial = calls with "
@@ -299,6 +391,8 @@ def run(ctx):
     for seed in SEEDS:
         for w in SIZES:
             shards.append(("refusal", (seed, w)))
+    for a in range(0, len(ENTRY_GRID), 24):
+        shards.append(("entry", ENTRY_GRID[a:a + 24]))
     tot = par.run_shards(dispatch, shards, ctx.jobs)
     violations = list(tot.get("violations", []))
     depth = 3
@@ -326,7 +420,8 @@ def run(ctx):
            "reproducibility": {"depth": depth, "operations": OPS, "generator_states": nstates, "steps": ntrans, "second_process_hash_seed": 7},
            "frequency_grid": M, "boundary_answers_run": tot.get("boundary_answers", 0),
            "refusal_product_calls": tot.get("refused", 0) + tot.get("accepted", 0), "refusal_accepted": tot.get("accepted", 0),
-           "main_refusal_runs": nmain, "observed_loose_frequency_over_real_seeds_sanity_only": sanity,
+           "main_refusal_runs": nmain, "command_line_runs_compared_with_direct_board": tot.get("entry_runs", 0),
+           "calls_repeated_in_opposite_order_in_a_new_process": tot.get("order_differential_calls", 0), "observed_loose_frequency_over_real_seeds_sanity_only": sanity,
            "rule": RULE, "exhaustive": not tot.get("skipped_shards"), "samples": tot.get("samples", [])[:5]}
     return {"coverage": cov, "violations": violations, "assumptions": ASSUME}
 
@@ -337,6 +432,8 @@ def dispatch(shard):
         return work_shape(arg)
     if kind == "freq":
         return work_frequency(arg)
+    if kind == "entry":
+        return work_entry(arg)
     return work_refusal(arg)
 
 
@@ -357,6 +454,18 @@ def replay(case):
         b = G.gen_rnd_board(i["seed"], i["length"], i["width"], i["prob_loose_tile"], i["max_reward"], i["force_down"])
         why = shape_findings(b, i["length"], i["width"], i["max_reward"], i["force_down"])
         return ("after earlier calls %r: %s" % (i.get("earlier_calls_in_this_process"), why)) if why else None
+    if leg == "entry":
+        out = work_entry([i["params"]])
+        return out["violations"][0]["explanation"] if out["violations"] else None
+    if leg == "order":
+        made = []
+        for c in i["calls"]:
+            try:
+                made.append((c, _digest(G.gen_rnd_board(*c))))
+            except Exception:                                # noqa: BLE001
+                made.append((c, "exception"))
+        diff = order_differential(made)
+        return ("%d of %d calls give another board in the opposite order" % (len(diff), len(made))) if diff else None
     if leg == "reproducibility":
         f, _, _, _ = explore_reproducibility(len(i["sequence"]))
         return f[0]["explanation"] if f else None
